@@ -21,7 +21,7 @@ def jobs(ctx):
             ex(3, a, b, '1'); ex(3, a, b, 'sym', warm=True)
         for pre in itertools.product((True, False), repeat=4):
             ex(4, -1, 1, '1', prefix=pre); ex(4, -2, 1, 'sym', prefix=pre, warm=True)
-        ex(4, -1, 1, H=3, offset=1); ex(5, -1, 1, H=3, offset=2)
+        ex(4, -1, 1, H=3, offset=1); ex(5, -1, 1, H=5, offset=2)
         # bit-precise float32 variant on the smallest map (hard queries: long caps)
         J.append({'mod': MOD, 'fn': 'xcheck', 'mode': 'sym', 'args': {'W': 1, 'dmin': -1, 'dmax': 1, 'thr': '1.0', 'cap': 600, 'block': blk}})
     return J
